@@ -66,6 +66,8 @@ def program(rng, prof):
         i = rng.randint(1, nid)
         if prof == "c10":
             k = rng.random()
+            if k < 0.1:
+                return "JobDel %d" % i
             if k < 0.5:
                 return "JobAdd %d %d %d" % (i, rng.randint(0, 2), bid())
             if k < 0.7:
@@ -147,6 +149,10 @@ def directed():
     # heap: delete from the middle of the timer heap, later timers must still come in order
     P.append(["TimerAdd %d 1 0 0 %d 0" % (i + 1, d * MS) for i, d in enumerate([100, 900, 200, 950, 960, 400, 300])] + ["TimerDel 4", "Run"] +
              ["Poll T 0 0 0"] * 40)
+    # cancel a job that is still waiting, then a single item at that level must still be served
+    for p in (0, 1, 2):
+        P.append(["JobAdd 1 %d 0" % p, "JobDel 1", "JobAdd 2 %d 0" % p, "JobAdd 3 2 0", "Run"] + ["Poll T 0 0 0"] * 14)
+        P.append(["JobAdd 1 %d 0" % p, "JobDel 1", "TimerAdd 2 %d 0 0 0 0" % p, "Run"] + ["Poll T 0 0 0"] * 14)
     # large durations
     for d in DUR_BIG:
         P.append(["TimerAdd 1 1 %s 0" % limbs(d), "TimerQuery 1", "Run", "Poll A 0 0 0", "Poll A 0 0 0", "TimerQuery 1"])
